@@ -150,7 +150,7 @@ NormSq(A) ==
 
 (* ---- spatial sum, broadcast back over the pixels: the numerator of the spatial mean (a spatially constant field of the ---- *)
 (* ---- same type; the typing rule "smean" of EquivCalculus.tla, and with TProd / Contract its rules "cov" and "matvec") ---- *)
-SpatialSum(A) ==
+SpatialSumField(A) ==
   LET nc == NComp(A)
       np == NPix(A)
       tot == Eager([c \in 1..nc |-> SumSeq([m \in 1..np |-> A.val[(m - 1) * nc + c]])])
